@@ -7,10 +7,13 @@ import (
 	"os"
 	"os/exec"
 	"path/filepath"
+	"regexp"
+	"runtime/debug"
 	"sort"
 	"strconv"
 	"strings"
 	"sync"
+	"sync/atomic"
 	"testing"
 	"time"
 
@@ -88,6 +91,8 @@ func TestWorker(t *testing.T) {
 	start := time.Now()
 	n := 0
 	sweepsDone := 0
+	debug.SetMaxStack(256 << 20) // unbounded recursion dies quickly instead of eating 1 GB first
+	startWatchdog()
 	for idx := wi; idx < maxRuns; idx += wn {
 		if time.Since(start) > wall {
 			break
@@ -140,7 +145,9 @@ func TestWorker(t *testing.T) {
 		// progress marker so that a run that kills the process can be replayed
 		fmt.Fprintf(bw, "{\"begin\":%d}\n", idx)
 		bw.Flush()
+		watchRun(idx)
 		res := dispatchRun(t, spec)
+		watchRun(-1)
 		n++
 		if n%50 == 1 && res.Machinery == "" {
 			// continuous determinism guard
@@ -152,6 +159,86 @@ func TestWorker(t *testing.T) {
 		_ = enc.Encode(compact(res, len(res.Viol) > 0 || res.Machinery != ""))
 		bw.Flush()
 	}
+}
+
+// ---- runs that kill or hang the process -------------------------------------------
+//
+// A run in which package-operator code recurses without bound ends the process
+// (Go's stack overflow is fatal, not a panic) or never returns. Workers mark
+// the run they are in; a real-time watchdog outside the bubble ends a process
+// whose run exceeds the limit. The driver re-runs such an index alone in a child
+// process (TestProbe) and classifies the outcome.
+
+var watchedRun, watchedSince atomic.Int64
+
+func watchRun(idx int) {
+	watchedSince.Store(time.Now().UnixNano())
+	watchedRun.Store(int64(idx))
+}
+
+func runLimit() time.Duration { return time.Duration(envInt("VERIF_RUN_LIMIT_S", 240)) * time.Second }
+
+func startWatchdog() {
+	watchedRun.Store(-1)
+	go func() {
+		for {
+			time.Sleep(time.Second)
+			if idx := watchedRun.Load(); idx >= 0 && time.Since(time.Unix(0, watchedSince.Load())) > runLimit() {
+				fmt.Fprintf(os.Stderr, "VERIF-WATCHDOG: run index %d did not finish within %v\n", idx, runLimit())
+				os.Exit(3)
+			}
+		}
+	}()
+}
+
+// TestProbe runs one spec in generate mode and exits 0 if it returns.
+func TestProbe(t *testing.T) {
+	js := os.Getenv("VERIF_PROBE_SPEC")
+	if js == "" || os.Getenv("VERIF_ROLE") != "probe" {
+		t.Skip()
+	}
+	var spec cs.RunSpec
+	if err := json.Unmarshal([]byte(js), &spec); err != nil {
+		fmt.Println("MACHINERY: bad probe spec:", err)
+		os.Exit(2)
+	}
+	debug.SetMaxStack(256 << 20)
+	startWatchdog()
+	watchRun(spec.Index)
+	res := dispatchRun(t, spec)
+	watchRun(-1)
+	fmt.Printf("PROBE-RETURNED violations=%d machinery=%q\n", len(res.Viol), res.Machinery)
+}
+
+var pkoFrame = regexp.MustCompile(`(?m)^(package-operator\.run/[^\s(]+(?:\([^)]*\))?[^\s(]*)\(`)
+
+// probeFatal re-runs spec alone in a child process. symptom is "" when the run returns.
+func probeFatal(spec cs.RunSpec) (symptom, frame, out string) {
+	js, _ := json.Marshal(spec)
+	cmd := exec.Command(os.Args[0], "-test.run", "^TestProbe$", "-test.timeout", "30m", "-test.cpu", "1")
+	cmd.Env = append(os.Environ(), "VERIF_ROLE=probe", "VERIF_PROBE_SPEC="+string(js), "GOMAXPROCS=2")
+	b, _ := cmd.CombinedOutput()
+	out = string(b)
+	switch {
+	case strings.Contains(out, "PROBE-RETURNED"):
+		return "", "", out
+	case strings.Contains(out, "stack overflow") || strings.Contains(out, "goroutine stack exceeds"):
+		symptom = "stack-overflow"
+	case strings.Contains(out, "VERIF-WATCHDOG"):
+		symptom = "hang"
+	default:
+		return "died", "", out
+	}
+	for _, m := range pkoFrame.FindAllStringSubmatch(out, -1) {
+		if !strings.Contains(m[1], "verifsim") && !strings.Contains(m[1], "zzverif") {
+			frame = m[1]
+			if i := strings.LastIndex(frame, "/"); i >= 0 {
+				frame = frame[i+1:]
+			}
+			break
+		}
+	}
+	return symptom, frame, out
 }
 
 // ---- known findings ------------------------------------------------------------
@@ -218,6 +305,9 @@ type replayFile struct {
 	Desc     []string     `json:"scenario,omitempty"`
 	Trace    []string     `json:"trace,omitempty"`
 	Shrink   shrinkReport `json:"minimisation"`
+	// Fatal is set when the run ends or hangs the process ("stack-overflow", "hang"): it is then
+	// re-generated from (seed, index) in a child process instead of replayed from a choice sequence.
+	Fatal string `json:"fatal,omitempty"`
 }
 
 type shrinkReport struct {
@@ -370,7 +460,7 @@ func writeReplay(prop string, v cs.Violation, res cs.RunResult, rep shrinkReport
 	spec.Replay = true
 	spec.Sch, spec.Scn = res.Sch, res.Scn
 	// re-run with trace to produce the human-readable schedule
-	rf := replayFile{Property: prop, Rule: v.Rule, Sig: v.Sig, Msg: v.Msg, Engine: "E1 clustersim", Spec: spec, Hash: res.Hash, Desc: res.Desc, Trace: res.Trace, Shrink: rep}
+	rf := replayFile{Property: prop, Rule: v.Rule, Sig: v.Sig, Msg: v.Msg, Engine: metaOf(prop).Engine, Spec: spec, Hash: res.Hash, Desc: res.Desc, Trace: res.Trace, Shrink: rep}
 	dir := env("VERIF_REPLAY_DIR", filepath.Join(verifDir(), "replays"))
 	_ = os.MkdirAll(dir, 0o755)
 	name := fmt.Sprintf("%s-%s-%s-seed%d-run%d.json", prop, v.Rule, sanitize(v.Sig), spec.Seed, spec.Index)
@@ -409,6 +499,16 @@ func TestReplay(t *testing.T) {
 	if err := json.Unmarshal(b, &rf); err != nil {
 		fmt.Println("MACHINERY: cannot parse replay file:", err)
 		os.Exit(2)
+	}
+	if rf.Fatal != "" {
+		symptom, frame, out := probeFatal(rf.Spec)
+		if symptom == rf.Fatal {
+			fmt.Printf("REPRODUCED %s/%s sig=%s: the run (seed %d, index %d) ends with %s in %s\n", rf.Property, rf.Rule, rf.Sig, rf.Spec.Seed, rf.Spec.Index, symptom, frame)
+			fmt.Printf("VIOLATION property=%s replay=%s\n", rf.Property, path)
+			os.Exit(1)
+		}
+		fmt.Println("NOT REPRODUCED:", symptom, tailStr(out, 400))
+		return
 	}
 	spec := rf.Spec
 	spec.Replay = true
@@ -450,6 +550,7 @@ type agg struct {
 	violV                                                     map[string]cs.Violation
 	incidental                                                map[string]int
 	machinery                                                 []string
+	died                                                      []int // run indexes during which a worker process ended
 	samples                                                   []any
 	extraSum                                                  map[string]float64
 }
@@ -548,7 +649,7 @@ func readWorkerLogs(prop string, a *agg) {
 		}
 		fh.Close()
 		if lastBegin >= 0 {
-			a.machinery = append(a.machinery, fmt.Sprintf("worker %s died during run index %d", filepath.Base(f), lastBegin))
+			a.died = append(a.died, lastBegin)
 		}
 	}
 }
@@ -659,11 +760,45 @@ func TestDriver(t *testing.T) {
 
 	a := newAgg()
 	readWorkerLogs(prop, a)
-	for _, e := range workerErrs {
-		a.machinery = append(a.machinery, e)
-	}
 	known := loadFindings()
 	meta := metaOf(prop)
+	var fatalLines []string
+	fatalNew := 0
+	explained := 0
+	for _, idx := range a.died {
+		spec := cs.RunSpec{Property: prop, Seed: seed, Index: idx, FaultFree: faultFreeIndex(idx)}
+		symptom, frame, out := probeFatal(spec)
+		switch {
+		case symptom == "":
+			a.machinery = append(a.machinery, fmt.Sprintf("a worker died during run index %d but the run returns when executed alone", idx))
+		case symptom == "died" || prop != "C19":
+			a.machinery = append(a.machinery, fmt.Sprintf("run index %d ends the process (%s): %s", idx, symptom, tailStr(out, 800)))
+		default:
+			explained++
+			v := cs.Violation{Property: prop, Rule: "unbounded-recursion", Sig: symptom + "/" + frame,
+				Msg: fmt.Sprintf("run (seed %d, index %d) never returns to the controller runtime: %s in %s; Go cannot recover from this, the manager process dies or spins", seed, idx, symptom, frame)}
+			if f := knownMatch(known, v); f != nil {
+				continue
+			}
+			fatalNew++
+			rf := replayFile{Property: prop, Rule: v.Rule, Sig: v.Sig, Msg: v.Msg, Engine: meta.Engine, Spec: spec, Fatal: symptom, Trace: []string{tailStr(out, 4000)}}
+			dir := env("VERIF_REPLAY_DIR", filepath.Join(verifDir(), "replays"))
+			_ = os.MkdirAll(dir, 0o755)
+			path := filepath.Join(dir, fmt.Sprintf("%s-%s-%s-seed%d-run%d.json", prop, v.Rule, sanitize(v.Sig), seed, idx))
+			b, _ := json.MarshalIndent(rf, "", " ")
+			if err := os.WriteFile(path, b, 0o644); err != nil {
+				a.machinery = append(a.machinery, "cannot write replay file: "+err.Error())
+				continue
+			}
+			fatalLines = append(fatalLines, fmt.Sprintf("VIOLATION property=%s replay=%s", prop, path))
+			fmt.Printf("  rule=%s sig=%s: %s\n", v.Rule, v.Sig, v.Msg)
+		}
+	}
+	if explained < len(a.died) || len(a.died) == 0 {
+		for _, e := range workerErrs {
+			a.machinery = append(a.machinery, e)
+		}
+	}
 
 	// violations: triage against known findings, minimise, confirm in a fresh process
 	keys := make([]string, 0, len(a.viol))
@@ -790,7 +925,7 @@ func TestDriver(t *testing.T) {
 	}
 	ev := map[string]any{
 		"property_id": prop, "tier": tier, "seed": seed, "level": meta.Level,
-		"coverage": cov, "assumptions": meta.Assumptions, "wall_s": wall, "violations": newViol,
+		"coverage": cov, "assumptions": meta.Assumptions, "wall_s": wall, "violations": newViol + fatalNew,
 	}
 	evDir := env("VERIF_EVIDENCE_DIR", filepath.Join(verifDir(), "evidence"))
 	_ = os.MkdirAll(evDir, 0o755)
@@ -816,6 +951,7 @@ func TestDriver(t *testing.T) {
 		status(2)
 		return
 	}
+	violLines = append(violLines, fatalLines...)
 	if len(violLines) > 0 {
 		for _, l := range violLines {
 			fmt.Println(l)
